@@ -223,6 +223,14 @@ func VerifC06_ScriptedCleanup() {
 	verifC06Script(shapes[verifChoice("shape", verifParam("cleanupshapes", 1))])
 }
 
+// Three routes on the nested prefixes of depth 1, 2 and 3 of the chain (faces 1..3 in order of registration, costs 10, 20,
+// 30, flags symbolic), then one of them - chosen by the explorer - is unregistered: inheritance must be re-flattened
+// for every longer prefix whatever flags the removed route had (a capture-only route in the middle included).
+func VerifC06_ScriptedNested() {
+	shapes := []string{"abcu", "cbau", "bacu"}
+	verifC06Script(shapes[verifChoice("shape", verifParam("nestedshapes", 2))])
+}
+
 func verifC06Script(shape string) {
 	depth := verifParam("sdepth", 3)
 	label := "C06/tree"
@@ -249,6 +257,7 @@ func verifC06Script(shape string) {
 		}
 		return origins[0]
 	}
+	var nested []enc.Name
 	for _, op := range shape {
 		switch op {
 		case 'A':
@@ -256,6 +265,18 @@ func verifC06Script(shape string) {
 			r := &Route{FaceID: pickFace(), Origin: pickOrigin(), Cost: verifRange("cost", 0, 1000), Flags: verifRange("flags", 0, 3)}
 			verifNoPanic(label+"/no-panic", func() { Rib.AddEncRoute(p, r) })
 			model.add(p, r.FaceID, r.Origin, r.Cost, r.Flags)
+		case 'a', 'b', 'c':
+			verifC06ChainName("init", depth) // materialise the chain
+			p := append(enc.Name{}, verifC06Chain[:int(op-'a')+1]...)
+			nop++
+			r := &Route{FaceID: uint64(nop), Origin: RouteOriginApp, Cost: uint64(10 * nop), Flags: verifRange("flags", 0, 3)}
+			verifNoPanic(label+"/no-panic", func() { Rib.AddEncRoute(p, r) })
+			model.add(p, r.FaceID, r.Origin, r.Cost, r.Flags)
+			nested = append(nested, p)
+		case 'u':
+			k := verifChoice("which", len(nested))
+			verifNoPanic(label+"/no-panic", func() { Rib.RemoveRouteEnc(nested[k], uint64(k+1), RouteOriginApp) })
+			model.remove(nested[k], uint64(k+1), RouteOriginApp)
 		case 'U':
 			p := verifC06ChainName("p", depth)
 			face, origin := pickFace(), pickOrigin()
